@@ -441,13 +441,13 @@ def run():
 
         def mc(item):
             return item, vlib.run_tlc("ImportMC.tla", item[0], sc.path, workers=4, timeout=1700, heap="4g", coverage=(item[0] == "ImportRunMC.cfg"))
-        ngraphs = 6 if chk.thorough else 3
+        ngraphs = 5 if chk.thorough else 3
 
         def prepare(gid):
             rng = random.Random(chk.seed * 7919 + gid)
             g = make_graph(chk, sc, gid, rng, 4 if gid % 3 == 0 else 6)
-            return make_cases(chk, sc, g, rng, sims=(250 if chk.thorough else 60), nsim=(3000 if chk.thorough else 300),
-                              npairs=(400 if chk.thorough else 60), nprog=(60 if chk.thorough else 12),
+            return make_cases(chk, sc, g, rng, sims=(200 if chk.thorough else 60), nsim=(1500 if chk.thorough else 300),
+                              npairs=(200 if chk.thorough else 60), nprog=(40 if chk.thorough else 12),
                               deep=(chk.thorough and gid == 3))
         with ThreadPoolExecutor(max_workers=5) as ex:
             fm = [ex.submit(mc, it) for it in mcs]
